@@ -62,22 +62,17 @@ def run(ck):
     for key, fn in VALIDATORS + [(f'partial/{b}/is_utf8_domain.c', 'is_utf8_domain') for b in BACKENDS]:
         tu = all_tus[key]
         ck.analysed(units=[key], functions=[f'{key}:{fn}'])
-        # returns of the validator itself and, transitively, of the static helpers of its unit whose result it returns
-        todo = [fn]; seen_fns = set(); rets = []
-        while todo:
-            g = todo.pop()
-            if g in seen_fns or g not in tu.functions: continue
-            seen_fns.add(g)
-            for r in astutil.find(tu.body(g), 'ReturnStmt'):
-                if not r.get('inner'): continue
-                c = astutil.strip(r['inner'][0])
-                if c.get('kind') == 'CallExpr' and astutil.callee_name(c) in tu.functions and tu.functions[astutil.callee_name(c)].get('storageClass') == 'static':
-                    todo.append(astutil.callee_name(c)); continue
-                rets.append((g, r))
-        for g, r in rets:
-            eng = cfgpaths.Engine(tu, g); v = eng.render(r['inner'][0], cfgpaths.Path())
-            ok = v in ('0', 'EEAV_NO_ERROR', 'TLD_TYPE_SPECIAL', 'rc') or re.fullmatch(r'-EEAV_\w+', v) is not None or re.fullmatch(r"[\w@'#\[\]]+(->|\.)type", v) is not None \
-                or re.fullmatch(r'is_tld#\d+', v) is not None or re.fullmatch(r'\(iserr \? -rc : rc\)', v) is not None
+        # every value a path of the validator can return (locals replaced by their values, loop-free static helpers of
+        # the unit spliced in): judged once per distinct value
+        eng, vpaths = cfgpaths.summarise(tu, fn)
+        seen_v = {}
+        for p in vpaths:
+            r = p.ret()
+            if r is None: continue
+            seen_v.setdefault(str(r[1]), r[-1])
+        for v, r in sorted(seen_v.items()):
+            ok = v in ('0', '1', 'EEAV_NO_ERROR', 'TLD_TYPE_SPECIAL') or re.fullmatch(r'-EEAV_\w+', v) is not None or re.fullmatch(r"[\w@'#\[\]]+(->|\.)type", v) is not None \
+                or re.fullmatch(r"(is_tld|is_ascii_domain|is_ipv4|is_ipv6|is_ipaddr|is_\d+_local)#\d+'*", v) is not None or re.fullmatch(r"-?\(.+ \? -?EEAV_\w+ : -?EEAV_\w+\)", v) is not None
             if ok and v.startswith('-EEAV_') and v[1:] not in codes: ok = False
             t2.instance(f'{key}:{fn}:return@{where(r)}' if not ok else f'{key}:{fn}', ok=ok, wclass='return-value', what=f'{fn} returns {v} at {where(r)}: not a code eav_errstr can describe')
     # ---------------- paths
